@@ -85,94 +85,6 @@ func zzH15_roundtrip_rune() {
 // (string literals: octal/hex escapes only up to 0x7F; \u/\U denote the UTF-8
 // encoding of a Unicode scalar value).
 
-// zzRefDecode decodes the text between the quotation marks.
-func zzRefDecode(in string, raw, isByte bool) (out []byte, ok bool) {
-	i := 0
-	for i < len(in) {
-		c := in[i]
-		if c == '\r' { // line ending CR or CRLF denotes LF
-			out = append(out, '\n')
-			i++
-			if i < len(in) && in[i] == '\n' {
-				i++
-			}
-			continue
-		}
-		if c != '\\' || raw {
-			out = append(out, c)
-			i++
-			continue
-		}
-		if i+1 >= len(in) {
-			return nil, false
-		}
-		e := in[i+1]
-		i += 2
-		switch {
-		case e == '\n':
-		case e == 'a':
-			out = append(out, 7)
-		case e == 'b':
-			out = append(out, 8)
-		case e == 't':
-			out = append(out, 9)
-		case e == 'n':
-			out = append(out, 10)
-		case e == 'v':
-			out = append(out, 11)
-		case e == 'f':
-			out = append(out, 12)
-		case e == 'r':
-			out = append(out, 13)
-		case e == '\\' || e == '\'' || e == '"':
-			out = append(out, e)
-		case '0' <= e && e <= '7':
-			n := int(e - '0')
-			for d := 0; d < 2 && i < len(in) && '0' <= in[i] && in[i] <= '7'; d++ {
-				n = n*8 + int(in[i]-'0')
-				i++
-			}
-			if n > 255 || !isByte && n > 127 {
-				return nil, false
-			}
-			out = append(out, byte(n))
-		case e == 'x' || e == 'u' || e == 'U':
-			nd := 2
-			if e == 'u' {
-				nd = 4
-			} else if e == 'U' {
-				nd = 8
-			}
-			if i+nd > len(in) {
-				return nil, false
-			}
-			n := 0
-			for d := 0; d < nd; d++ {
-				h, hok := zzHexVal(in[i+d])
-				if !hok {
-					return nil, false
-				}
-				n = n<<4 | h
-			}
-			i += nd
-			if e == 'x' {
-				if !isByte && n > 127 {
-					return nil, false
-				}
-				out = append(out, byte(n))
-			} else {
-				if n > 0x10FFFF || 0xD800 <= n && n <= 0xDFFF {
-					return nil, false
-				}
-				out = append(out, zzEncodeRune(rune(n))...)
-			}
-		default:
-			return nil, false
-		}
-	}
-	return out, true
-}
-
 // zzNoBackslashCR: no backslash immediately followed by CR. unquote rejects
 // that pair, the spec's "escaped newline" arguably covers it; the scanner
 // normalises CR/CRLF to LF before unquote sees the text, so the case is not
@@ -185,15 +97,17 @@ func zzNoBackslashCR(s string) bool {
 	return r
 }
 
-func zzCheckUnquote(body string, tag string) {
-	pfx := zzChoice("pfx", 4)
+func zzCheckUnquote(body string, tag string, npfx, nquot int) {
+	pfx := []int{0, 2, 1, 3}[zzChoice("pfx", npfx)] // "", b, r, rb
 	raw, isByte := pfx&1 != 0, pfx&2 != 0
+	// quotation: ", ', triple-" (quick) and triple-' (thorough)
+	qk := zzChoice("quoting", nquot)
 	Q := "\""
-	if zzChoice("quote", 2) == 1 {
+	if qk == 1 || qk == 3 {
 		Q = "'"
 	}
 	full := body
-	if zzChoice("triple", 2) == 1 {
+	if qk >= 2 {
 		full = Q + Q + body + Q + Q
 	}
 	text := []string{"", "r", "b", "rb"}[pfx] + Q + full + Q
@@ -222,32 +136,39 @@ func zzCheckUnquote(body string, tag string) {
 //
 //verif:unwind 200
 func zzH15_unquote_free() {
-	maxk := zzParam("maxbody", 3, 4)
+	maxk := zzParam("maxbody", 2, 3)
 	k := zzChoice("k", maxk+1)
-	zzCheckUnquote(zzString("body", k), "free")
+	zzCheckUnquote(zzString("body", k), "free", 4, zzParam("quotings", 3, 4))
 	zzReach("end")
 }
 
-// zzH15_unquote_hex: the fixed-width escapes \xHH, \uHHHH, \UHHHHHHHH with
-// symbolic digits followed by one optional symbolic byte. `anydigits` of the
-// digits are arbitrary bytes (so non-hex characters are rejected), the others
-// range over [0-9a-fA-F] (quick: [0-9a-f]).
+// zzH15_unquote_hex: the fixed-width escapes \xHH, \uHHHH, \UHHHHHHHH and the
+// octal escape \OOO followed by a fourth digit, with symbolic digits, in
+// string and bytes literals. One chosen digit position (none/first/last) is an
+// arbitrary byte, so non-hex characters must be rejected; the other digits
+// range over [0-9a-f] (thorough: also [A-F]); some digits of \U and all octal
+// digits range over [0-9] only, to bound the forks inside strconv.ParseUint.
+// Thorough: one optional arbitrary trailing byte and all quotings.
 //
 //verif:unwind 400
 func zzH15_unquote_hex() {
-	form := zzChoice("form", 3)
-	nd := []int{2, 4, 8}[form]
-	lead := []string{"\\x", "\\u", "\\U"}[form]
+	form := zzChoice("form", 4)
+	nd := []int{2, 4, 8, 4}[form]
+	lead := []string{"\\x", "\\u", "\\U", "\\"}[form]
 	digs := zzBytes("d", nd)
-	anyPos := zzChoice("anypos", nd+1) // position of the unconstrained character; nd = none
+	anyPos := -1
+	if form != 3 {
+		anyPos = []int{-1, 0, nd - 1}[zzChoice("anypos", 3)]
+	}
 	upper := zzParam("uppercase", 0, 1) == 1
 	for i := 0; i < nd; i++ {
 		if i == anyPos {
 			continue
 		}
 		c := digs[i]
-		if form == 2 && i < 2 {
-			zzAssume(zzB(c, '0', '9')) // leading digits of \U: value range is decided by the first three digits
+		if form == 3 || form == 2 && (i < 2 || i > 5) {
+			// \U: the range and surrogate checks are decided by digits 3..6
+			zzAssume(zzB(c, '0', '9'))
 			continue
 		}
 		isHex := zzOr(zzB(c, '0', '9'), zzB(c, 'a', 'f'))
@@ -257,9 +178,9 @@ func zzH15_unquote_hex() {
 		zzAssume(isHex)
 	}
 	body := lead + string(digs)
-	if zzChoice("tail", 2) == 1 {
+	if zzChoice("tail", zzParam("tails", 1, 2)) == 1 {
 		body += zzString("t", 1)
 	}
-	zzCheckUnquote(body, "hex")
+	zzCheckUnquote(body, "hex", 2, zzParam("quotings", 1, 4))
 	zzReach("end")
 }
